@@ -45,6 +45,14 @@ class Scenario:
             if kind == 'echo':
                 so = si
             self.methods[m] = {'in': si, 'out': so, 'kind': kind}
+        # optionally a second exported interface re-using member names with other signatures: calls then name
+        # the interface they mean
+        self.iface2_name = self.iface_name + 'b'
+        self.methods2 = {}
+        if r.random() < 0.4:
+            for m in r.sample(sorted(self.methods), r.randint(1, len(self.methods))):
+                si, so = r.choice(SIGS), r.choice(SIGS)
+                self.methods2[m] = {'in': si, 'out': so, 'kind': r.choice(['value', 'value', 'raise'])}
         self.ncallers = r.choice([1, 1, 2, 3])
         self.use_name = r.random() < 0.5
         self.proxy_mode = [r.choice(['explicit', 'introspect']) for _ in range(self.ncallers)]
@@ -54,6 +62,10 @@ class Scenario:
         for k in range(self.ncalls):
             m = r.choice(sorted(self.methods))
             spec = self.methods[m]
+            which = 1
+            if m in self.methods2 and r.random() < 0.5:
+                spec = self.methods2[m]
+                which = 2
             types = G.split_signature(spec['in'])
             tv = [g.value(ct) for ct in types]
             args = [gen.py_input(ct, v, r, [], marshal_mod=M, plain=True) for ct, v in zip(types, tv)]
@@ -61,14 +73,15 @@ class Scenario:
                 args[0] = 'tok-%d-%d' % (idx, k)
             otypes = G.split_signature(spec['out'])
             ov = [gen.py_input(ct, g.value(ct), r, [], marshal_mod=M, plain=True) for ct in otypes]
-            self.calls.append({'k': k, 'caller': r.randrange(self.ncallers), 'method': m, 'args': args,
+            self.calls.append({'k': k, 'caller': r.randrange(self.ncallers), 'method': m, 'args': args, 'which': which,
+                               'spec': spec,
                                'args_norm': [gen.normalise(ct, a) for ct, a in zip(types, args)],
                                'ret': ov, 'ret_norm': [gen.normalise(ct, v) for ct, v in zip(otypes, ov)]})
 
         # calls that the implementation cannot tell apart (same method, equal arguments) get the same answer
         for i, c in enumerate(self.calls):
             for e in self.calls[:i]:
-                if e['method'] == c['method'] and plain_eq(e['args_norm'], c['args_norm']):
+                if e['method'] == c['method'] and e['which'] == c['which'] and plain_eq(e['args_norm'], c['args_norm']):
                     c['ret'], c['ret_norm'] = e['ret'], e['ret_norm']
                     break
 
@@ -76,10 +89,18 @@ class Scenario:
         return I.DBusInterface(self.iface_name, *[I.Method(m, arguments=s['in'], returns=s['out'])
                                                   for m, s in sorted(self.methods.items())], noRegister=True)
 
+    def interfaces(self):
+        out = [self.interface()]
+        if self.methods2:
+            out.append(I.DBusInterface(self.iface2_name, *[I.Method(m, arguments=s['in'], returns=s['out'])
+                                                           for m, s in sorted(self.methods2.items())], noRegister=True))
+        return out
+
     def describe(self):
-        return {'idx': self.idx, 'methods': self.methods, 'callers': self.ncallers, 'proxy_mode': self.proxy_mode,
+        return {'idx': self.idx, 'methods': self.methods, 'second_interface': self.methods2, 'callers': self.ncallers, 'proxy_mode': self.proxy_mode,
                 'well_known_name': self.use_name,
-                'calls': [{'caller': c['caller'], 'method': c['method'], 'args': repr(c['args'])[:120]} for c in self.calls]}
+                'calls': [{'caller': c['caller'], 'method': c['method'], 'interface': c['which'],
+                           'args': repr(c['args'])[:120]} for c in self.calls]}
 
 
 def convention(out_sig, values):
@@ -104,25 +125,28 @@ class Run:
     def build_exporter_class(self):
         sc = self.sc
         run = self
-        attrs = {'dbusInterfaces': [sc.interface()]}
-        for m, spec in sc.methods.items():
-            nargs = len(G.split_signature(spec['in']))
-            params = ['self'] + ['a%d' % i for i in range(nargs)]
-            src = 'def dbus_%s(%s):\n    return _impl(%r, [%s])\n' % (m, ', '.join(params), m,
-                                                                    ', '.join('a%d' % i for i in range(nargs)))
-            ns = {'_impl': run.impl}
-            exec(src, ns)
-            attrs['dbus_' + m] = ns['dbus_' + m]
+        attrs = {'dbusInterfaces': sc.interfaces()}
+        for which, iname, methods in ((1, sc.iface_name, sc.methods), (2, sc.iface2_name, sc.methods2)):
+            for m, spec in methods.items():
+                nargs = len(G.split_signature(spec['in']))
+                params = ['self'] + ['a%d' % i for i in range(nargs)]
+                shared = m in sc.methods2
+                fname = ('impl%d_%s' % (which, m)) if shared else 'dbus_' + m
+                src = 'def %s(%s):\n    return _impl(%r, [%s], %d)\n' % (fname, ', '.join(params), m,
+                                                                          ', '.join('a%d' % i for i in range(nargs)), which)
+                ns = {'_impl': run.impl}
+                exec(src, ns)
+                attrs[fname] = O.dbusMethod(iname, m)(ns[fname]) if shared else ns[fname]
         return type('Exp%d' % sc.idx, (O.DBusObject,), attrs)
 
-    def impl(self, method, args):
+    def impl(self, method, args, which=1):
         sc = self.sc
-        spec = sc.methods[method]
-        self.invocations.append((method, args))
+        spec = (sc.methods if which == 1 else sc.methods2)[method]
+        self.invocations.append((method, args, which))
         # which scripted call is this?  identified by its arguments (tokens make most of them unique)
         call = None
         for c in sc.calls:
-            if c['method'] == method and not c.get('_served') and plain_eq(args, c['args_norm']):
+            if c['method'] == method and c['which'] == which and not c.get('_served') and plain_eq(args, c['args_norm']):
                 call = c
                 c['_served'] = True
                 break
@@ -188,7 +212,7 @@ class Run:
         proxies = []
         for i, c in enumerate(callers):
             if sc.proxy_mode[i] == 'explicit':
-                d = c.conn.getRemoteObject(dest, '/exp', sc.interface())
+                d = c.conn.getRemoteObject(dest, '/exp', sc.interfaces())
             else:
                 d = c.conn.getRemoteObject(dest, '/exp')
             proxies.append(clientfix.Outcome(d))
@@ -203,7 +227,10 @@ class Run:
         for call in sc.calls:
             prox = proxies[call['caller']].results[0][1]
             try:
-                d = prox.callRemote(call['method'], *call['args'])
+                kw = {}
+                if sc.methods2:
+                    kw['interface'] = sc.iface_name if call['which'] == 1 else sc.iface2_name
+                d = prox.callRemote(call['method'], *call['args'], **kw)
             except Exception as e:
                 ctx.report('callremote-raised', 'proxy.callRemote(%s) raised %r for a declared method and conforming '
                            'arguments (%s proxy)' % (call['method'], e, sc.proxy_mode[call['caller']]), w, case)
@@ -244,7 +271,7 @@ class Run:
         # ---- verdicts
         ok = True
         for call, out in zip(sc.calls, outcomes):
-            spec = sc.methods[call['method']]
+            spec = call['spec']
             cw = dict(w, call={'caller': call['caller'], 'method': call['method'], 'kind': spec['kind'],
                                'proxy': sc.proxy_mode[call['caller']], 'in': spec['in'], 'out': spec['out']},
                       results=[(k, repr(v.value if k == 'err' else v)[:200]) for k, v in out.results])
@@ -279,17 +306,18 @@ class Run:
             ctx.count('calls_via_' + sc.proxy_mode[call['caller']])
         # every scripted call ran its implementation exactly once with equal arguments
         for call in sc.calls:
-            n = sum(1 for m, a in self.invocations if m == call['method'] and plain_eq(a, call['args_norm']))
-            same_args_calls = sum(1 for c2 in sc.calls if c2['method'] == call['method']
+            n = sum(1 for m, a, wh in self.invocations if m == call['method'] and wh == call['which']
+                    and plain_eq(a, call['args_norm']))
+            same_args_calls = sum(1 for c2 in sc.calls if c2['method'] == call['method'] and c2['which'] == call['which']
                                   and plain_eq(c2['args_norm'], call['args_norm']))
             if n != same_args_calls:
                 ctx.report('invocation-count', 'method %s ran %d times with the arguments of %d call(s)' % (
-                    call['method'], n, same_args_calls), dict(w, invocations=[(m, repr(a)[:80]) for m, a in self.invocations]),
+                    call['method'], n, same_args_calls), dict(w, invocations=[(m, repr(a)[:80], wh) for m, a, wh in self.invocations]),
                     case)
                 ok = False
         if len(self.invocations) != len(sc.calls):
             ctx.report('invocation-count', '%d implementation runs for %d calls' % (len(self.invocations), len(sc.calls)),
-                       dict(w, invocations=[(m, repr(a)[:80]) for m, a in self.invocations]), case)
+                       dict(w, invocations=[(m, repr(a)[:80], wh) for m, a, wh in self.invocations]), case)
             ok = False
         return ok
 
